@@ -1,7 +1,7 @@
 """C13 - time is frozen per step; after() and idle() mean what they say (DESIGN.md section 4, C13)."""
 from fractions import Fraction as F
 
-from sim.chart import Cfg, swarm, gen_spec
+from sim.chart import Cfg, swarm, gen_spec, HIST
 from sim.engine import Result, Abandon, fp
 from sim.probes import SimClock, SkewClock, IntClock
 from sim.semrun import Sim, TICK, legal_or_abandon, materialise
@@ -12,7 +12,7 @@ LEVEL = 'exploration'
 BUDGET = {'quick': 20, 'thorough': 240}
 STREAM_ORDER = ['ops', 'guards', 'mat', 'chart', 'cfg']
 RULE = ('well-formed chart drawn per run whose guards are P.tguard(i, event, after(d), idle(d2), time), whose states carry invariants '
-        'P.tcond(j, after(d), idle(d2), time) and whose entry/exit/action code logs the `time` variable; contract checking is on. The '
+        'P.tcond(j, after(d), idle(d2), time), half of whose states carry a postcondition P.tpost(j, after(d), time) and whose entry/exit/action code logs the `time` variable; contract checking is on. The '
         'interpreter clock is a SkewClock (a larger value at every read) in half of the runs and a SimClock moved from inside probe calls '
         '(i.e. during the step) in the other half - half of those count integer ticks from 2**62+3, which no double represents -; advances are drawn from {0, exactly d, d -/+ one tick, large}. Every time observation '
         'of a step must equal the first clock value read by execute_once, and every logged after/idle value must equal the exact '
@@ -22,7 +22,7 @@ RULE = ('well-formed chart drawn per run whose guards are P.tguard(i, event, aft
 COMPONENTS = {'real': common.REAL + ['sismic.clock.Clock (abstract base)'],
               'stub': ['interpreter clock: SkewClock / SimClock advanced by probe side effects inside a step'] + common.STUB[1:]}
 ASSUMPTIONS = common.ASSUME + ['times are dyadic rationals, so float comparisons are exact',
-                               'time predicates are exercised in guards and state invariants (transition contracts evaluate idle() around the idle-stamp update, which the property does not pin down)']
+                               'time predicates are exercised in guards, state invariants and (after() only) state postconditions (transition contracts evaluate idle() around the idle-stamp update, which the property does not pin down)']
 LEVEL_TEXT = ('seeded exploration of clock trajectories including movement during a step (fault), with an exact stamp model; every '
               'time observation of every step is asserted')
 LEVEL_NOTE = 'trusted: the stamp bookkeeping in sim.semrun.Sim.step (entry/idle from the real entered lists and transitions)'
@@ -36,6 +36,12 @@ def run(ch, tier):
     skew = cs.flag(1, 2)
     bigint = not skew and cs.flag(1, 2)
     sp = gen_spec(ch.s('chart'), cfg)
+    # state postconditions that use after(): evaluated when the state is left, possibly in a later micro step of the macro
+    # step that entered it
+    tp = ch.s('chart')
+    for k_, n_ in enumerate(sorted(sp.states)):
+        if sp.states[n_].kind not in HIST and tp.flag(1, 2):
+            sp.states[n_].tpost = [(9000 + k_, tp.pick([0, 1, 2, 0.5]))]
     scale = 1
     if bigint:
         # an integer tick counter far beyond 2**53: every duration of the chart is expressed in ticks (1/64 time unit)
@@ -45,6 +51,7 @@ def run(ch, tier):
             t.tg_idle = None if t.tg_idle is None else int(t.tg_idle * 64)
         for s_ in sp.states.values():
             s_.tinv = [(j, None if a is None else int(a * 64), None if i is None else int(i * 64)) for j, a, i in s_.tinv]
+            s_.tpost = [(j, int(a * 64)) for j, a in s_.tpost]
     clock = SkewClock() if skew else IntClock() if bigint else SimClock()
     sim = Sim(sp, clock=clock, ignore_contract=False, statechart=materialise(sp, ch, res))
     moves = [0]
@@ -134,6 +141,24 @@ def run(ch, tier):
                     return res
                 if (a is not None and entry.get(owner.name) != T) or (i is not None and idle.get(owner.name) != T):
                     nontriv = (owner.name, float(entry[owner.name]), float(idle[owner.name]))
+        # after() in the postconditions of the states this step left, with the entry stamp valid at that moment
+        if r.ms is not None:
+            stamp = dict(r.entry_before)
+            want_tp = []
+            for m in r.ms.steps:
+                for sname in m.exited_states:
+                    for j, a in sp.states[sname].tpost:
+                        want_tp.append((j, (T - stamp[sname]) >= F(a)))
+                for sname in m.entered_states:
+                    stamp[sname] = T
+            got_tp = [(e[1], e[2]) for e in r.log if e[0] == 'tpost']
+            bad_time = [e for e in r.log if e[0] == 'tpost' and F(e[3]) != T]
+            if bad_time:
+                return res.fail('time-variable', 'a state postcondition saw time=%r during a step whose time is %r' % (bad_time[0][3], float(T)), **ctx)
+            if got_tp != want_tp:
+                return res.fail('after', 'after() in the postconditions of the states left by this step evaluated to %r (condition id, value), '
+                                'the entry stamps prescribe %r' % (got_tp, want_tp), **ctx)
+            res.stats['after_in_state_postconditions_checked'] += len(want_tp)
         if nontriv:
             res.nontrivial.add(fp((cfp, float(T), nontriv)))
             if res.sample is None:
